@@ -2272,13 +2272,119 @@ pub proof fn lemma_model_prints_one_row(m: BDD, out: Rows, filter: TruthTableEnt
     if m != BDD::False { lemma_cube_one_row(m); }
 }
 
-// ---- the constructor's glue: tokenizer -> parser / variable list (the tokenizer and extract_vars themselves are assumed, A9)
+// ---- the constructor's glue: tokenizer -> parser / variable list (the tokenizer itself is assumed, A9; extract_vars is under contract)
 
 /// the tokenizer as a function of the input stream and the ordering handed to it (None = it reports an error)
 pub uninterp spec fn lex_of(contents: DynBufRead, ord: Option<Vec<NamedSymbol>>) -> Option<Seq<SymbolicBDDToken>>;
 
-/// the variable list extract_vars derives from a token sequence
-pub uninterp spec fn vars_of(toks: Seq<SymbolicBDDToken>) -> Seq<Sym>;
+/// the symbol of a Var token
+pub open spec fn var_sym(t: SymbolicBDDToken) -> Option<Sym> {
+    match t { SymbolicBDDToken::Var(v) => Some(v), _ => None }
+}
+/// the symbols of the Var tokens, in order of appearance
+pub open spec fn var_syms(toks: Seq<SymbolicBDDToken>) -> Seq<Sym>
+    decreases toks.len()
+{
+    if toks.len() == 0 { Seq::empty() } else {
+        match var_sym(toks.last()) { Some(v) => var_syms(toks.drop_last()).push(v), None => var_syms(toks.drop_last()) }
+    }
+}
+/// the variable list extract_vars derives from a token sequence: every variable once, in order of first appearance
+pub open spec fn vars_of(toks: Seq<SymbolicBDDToken>) -> Seq<Sym> {
+    unique_of(var_syms(toks))
+}
+
+pub proof fn lemma_unique_of(s: Seq<Sym>)
+    ensures
+        distinct_ids(unique_of(s)),
+        forall|x: Sym| #[trigger] unique_of(s).contains(x) <==> s.contains(x),
+    decreases s.len()
+{
+    if s.len() > 0 {
+        let p = s.drop_last();
+        lemma_unique_of(p);
+        let r = unique_of(p);
+        let u = unique_of(s);
+        assert forall|x: Sym| #[trigger] u.contains(x) <==> s.contains(x) by {
+            if s.contains(x) {
+                let i = choose|i: int| 0 <= i < s.len() && s[i] == x;
+                if i < s.len() - 1 { assert(p[i] == x); assert(p.contains(x)); assert(r.contains(x)); }
+                if r.contains(x) {
+                    let j = choose|j: int| 0 <= j < r.len() && r[j] == x;
+                    if !r.contains(s.last()) { assert(u[j] == x); }
+                } else {
+                    assert(x == s.last());
+                    assert(u == r.push(x));
+                    assert(u[r.len() as int] == x);
+                }
+            }
+            if u.contains(x) {
+                let j = choose|j: int| 0 <= j < u.len() && u[j] == x;
+                if j < r.len() {
+                    assert(r[j] == x); assert(r.contains(x)); assert(p.contains(x));
+                    let i = choose|i: int| 0 <= i < p.len() && p[i] == x;
+                    assert(s[i] == x);
+                } else {
+                    assert(x == s.last());
+                    assert(s[s.len() - 1] == x);
+                }
+            }
+        }
+        assert(distinct_ids(u)) by {
+            if !r.contains(s.last()) {
+                assert forall|i: int, j: int| 0 <= i < u.len() && 0 <= j < u.len() && i != j implies (#[trigger] u[i]).id != (#[trigger] u[j]).id by {
+                    if i < r.len() && j < r.len() { assert(u[i] == r[i] && u[j] == r[j]); }
+                    else if i < r.len() { assert(u[i] == r[i]); assert(r.contains(r[i])); if u[i].id == u[j].id { assert(u[i] == u[j]); } }
+                    else { assert(u[j] == r[j]); assert(r.contains(r[j])); if u[i].id == u[j].id { assert(u[i] == u[j]); } }
+                }
+            }
+        }
+    }
+}
+
+pub proof fn lemma_var_syms(toks: Seq<SymbolicBDDToken>)
+    ensures
+        forall|i: int| 0 <= i < toks.len() && (#[trigger] toks[i]) is Var ==> var_syms(toks).contains(toks[i]->Var_0),
+        forall|x: Sym| #[trigger] var_syms(toks).contains(x) ==> exists|i: int| 0 <= i < toks.len() && #[trigger] toks[i] == SymbolicBDDToken::Var(x),
+    decreases toks.len()
+{
+    if toks.len() > 0 {
+        let p = toks.drop_last();
+        lemma_var_syms(p);
+        let vp = var_syms(p);
+        let vs = var_syms(toks);
+        assert forall|i: int| 0 <= i < toks.len() && (#[trigger] toks[i]) is Var implies vs.contains(toks[i]->Var_0) by {
+            if i < p.len() {
+                assert(p[i] == toks[i]);
+                let j = choose|j: int| 0 <= j < vp.len() && vp[j] == toks[i]->Var_0;
+                assert(vs[j] == vp[j]);
+            } else {
+                assert(vs[vp.len() as int] == toks[i]->Var_0);
+            }
+        }
+        assert forall|x: Sym| #[trigger] vs.contains(x) implies exists|i: int| 0 <= i < toks.len() && #[trigger] toks[i] == SymbolicBDDToken::Var(x) by {
+            let j = choose|j: int| 0 <= j < vs.len() && vs[j] == x;
+            if j < vp.len() {
+                assert(vp[j] == x); assert(vp.contains(x));
+                let i = choose|i: int| 0 <= i < p.len() && #[trigger] p[i] == SymbolicBDDToken::Var(x);
+                assert(toks[i] == SymbolicBDDToken::Var(x));
+            } else {
+                assert(toks[toks.len() - 1] == SymbolicBDDToken::Var(x));
+            }
+        }
+    }
+}
+
+/// filter_map with the Var-symbol picker is var_syms
+pub proof fn lemma_somes_var_syms(o: Seq<Option<Sym>>, toks: Seq<SymbolicBDDToken>)
+    requires o.len() == toks.len(), forall|i: int| 0 <= i < toks.len() ==> #[trigger] o[i] == var_sym(toks[i]),
+    ensures somes(o) == var_syms(toks),
+    decreases toks.len()
+{
+    if toks.len() > 0 {
+        lemma_somes_var_syms(o.drop_last(), toks.drop_last());
+    }
+}
 
 pub open spec fn same_elements(a: Seq<Sym>, b: Seq<Sym>) -> bool {
     a.to_multiset() == b.to_multiset()
